@@ -527,10 +527,12 @@ def const_eval(facts, e, depth=0):
             if d.endswith('i32::MAX'):
                 return 2147483647
             import re as _re
-            m = _re.search(r'(?:<impl |::|^)([iu](?:8|16|32|64|size))>?::(MAX|MIN)$', d)
+            m = _re.search(r'(?:<impl |::|^)([iu](?:8|16|32|64|size))>?::(MAX|MIN|BITS)$', d)
             if m:
                 bits = {'8': 8, '16': 16, '32': 32, '64': 64, 'size': 64}[m.group(1)[1:]]
                 signed = m.group(1)[0] == 'i'
+                if m.group(2) == 'BITS':
+                    return bits         # the width of the type in bits (usize / isize: the analysed target is 64-bit, as in INT_RANGE)
                 if m.group(2) == 'MAX':
                     return (1 << (bits - 1)) - 1 if signed else (1 << bits) - 1
                 return -(1 << (bits - 1)) if signed else 0
